@@ -1,9 +1,9 @@
 #!/bin/bash
-# seedconfirm.sh <ID> : confirm a seeded change produced in /tmp/seed/<ID> (change applied + demo test in place):
+# seedconfirm.sh <ID> : confirm a seeded change produced in $SEEDROOT/<ID> (default /tmp/seed/<ID>) (change applied + demo test in place):
 #  1. demo fails with the change, 2. demo passes without it, 3. the whole existing suite passes with the change.
 # Writes /tmp/seed/<ID>.out/confirm.log
 set -u
-ID="$1"; W=/tmp/seed/$ID; OUT=/tmp/seed/$ID.out
+ID="$1"; ROOT="${SEEDROOT:-/tmp/seed}"; W=$ROOT/$ID; OUT=$ROOT/$ID.out
 export GOFLAGS=-mod=mod GOPROXY=off GOSUMDB=off GOTOOLCHAIN=local
 cd "$W" || exit 2
 DEMO=$(head -1 "$OUT/DEMO_PATH.txt" | awk "{print \$1}" | tr -d "\r")
@@ -11,19 +11,18 @@ CMD=$(grep -o "go test.*" "$OUT/DEMO_PATH.txt" | head -1)
 {
 echo "== demo file: $DEMO ; cmd: $CMD"
 git status --short | head
-# make sure the change is exactly patch.diff
-git stash -q --include-untracked 2>/dev/null; git checkout -q -- . ; git stash pop -q 2>/dev/null
+# (no git stash here: the stash is shared by all worktrees of a repository)
 echo "== 1. demo WITH change (expect FAIL)"
 for i in 1 2 3; do eval "$CMD" 2>&1 | grep -E "^(ok|FAIL|---)" | head -3; done
 echo "== 2. demo WITHOUT change (expect ok)"
-git diff -- . ':!*_test.go' > /tmp/seed/$ID.cur.diff
-git apply -R /tmp/seed/$ID.cur.diff
+git diff -- . ':!*_test.go' > $ROOT/$ID.cur.diff
+git apply -R $ROOT/$ID.cur.diff
 for i in 1 2 3; do eval "$CMD" 2>&1 | grep -E "^(ok|FAIL|---)" | head -3; done
-git apply /tmp/seed/$ID.cur.diff
+git apply $ROOT/$ID.cur.diff
 echo "== 3. existing suite WITH change (demo moved aside)"
-mv "$DEMO" /tmp/seed/$ID.demo.keep
+mv "$DEMO" $ROOT/$ID.demo.keep
 go build ./... && go test -vet=off -count=1 -timeout 25m ./... 2>&1 | grep -E "^(ok|FAIL|---|panic)" | grep -v "no test files" 
-mv /tmp/seed/$ID.demo.keep "$DEMO"
+mv $ROOT/$ID.demo.keep "$DEMO"
 echo "== patch identical to deliverable: $(diff <(git diff -- . ':!*_test.go') $OUT/patch.diff >/dev/null && echo yes || echo NO)"
 } > "$OUT/confirm.log" 2>&1
 tail -30 "$OUT/confirm.log"
